@@ -105,6 +105,15 @@ func main() {
 			res:  res, out: filepath.Join(scratch, fmt.Sprintf("leaf-%d.out", j)),
 		})
 	}
+	{
+		res := filepath.Join(scratch, "leaf-risky.json")
+		jobs = append(jobs, job{
+			name: "leaf-risky",
+			args: []string{"child-leaf", res, filepath.Join(scratch, "leaf-risky.cases"), filepath.Join(scratch, "leaf-risky"), "1", "0", "0", "risky"},
+			env:  []string{"LOG_LEVEL=fatal"},
+			res:  res, out: filepath.Join(scratch, "leaf-risky.out"),
+		})
+	}
 	if raceBin != "" {
 		res := filepath.Join(scratch, "race-leaf.json")
 		jobs = append(jobs, job{
@@ -140,22 +149,29 @@ func main() {
 	sampled := 0
 	for i, j := range jobs {
 		r := results[i]
-		if r == nil {
-			cr := crs[i]
+		// (a -race child that reported races ends with exit code 66 even when it finished its work)
+		if cr := crs[i]; r == nil || cr.TimedOut || (cr.ExitCode != 0 && !(j.race && cr.ExitCode == 66)) {
 			// the child died: decide from its output whether lindb code of the anchored files crashed
 			tail := cr.Output
 			lastCase := lastLine(strings.Replace(j.res, ".json", ".cases", 1))
-			if cr.TimedOut {
+			switch {
+			case cr.TimedOut:
 				c.Inconclusive("child %s hit the watchdog (last case: %s)", j.name, lastCase)
-				continue
-			}
-			if (strings.Contains(tail, "fatal error:") || strings.Contains(tail, "panic:")) && anchoredFrame(tail) != "" {
+			case strings.Contains(tail, "[recovered]") && strings.Contains(tail, "workerPool).execTask.func1") &&
+				strings.Contains(tail, "pipelineStateMachine).completeStage") && strings.Contains(tail, ").Complete("):
+				c.Violation("C19/process-crash/panic-in-stage-complete-inside-pool-panic-handler",
+					fmt.Sprintf("child %s died (exit %d): a pooled stage panicked, the pool's recover called the stage's error handler -> completeStage -> Stage.Complete(), "+
+						"which panicked again inside the deferred handler; nobody recovers that, the process ends; last case: %s", j.name, cr.ExitCode, lastCase),
+					map[string]interface{}{"output_tail": lastN(tail, 6000), "last_case": lastCase})
+			case (strings.Contains(tail, "fatal error:") || strings.Contains(tail, "panic:")) && anchoredFrame(tail) != "":
 				c.Violation("C19/process-crash/"+anchoredFrame(tail), fmt.Sprintf("child %s died (exit %d) with a crash in anchored lindb code; last case: %s", j.name, cr.ExitCode, lastCase),
 					map[string]interface{}{"output_tail": lastN(tail, 6000), "last_case": lastCase})
-			} else {
+			default:
 				c.Inconclusive("child %s ended without a result (exit %d, err %v); last case: %s; output tail: %s", j.name, cr.ExitCode, cr.Err, lastCase, lastN(tail, 600))
 			}
-			continue
+			if r == nil {
+				continue
+			}
 		}
 		prefix := ""
 		if j.race {
